@@ -45,6 +45,9 @@ Definition cserr_eqb (a b : cserr) : bool :=
   | _, _ => false
   end.
 
+Definition kerr_eqb (a b : kerr) : bool :=
+  match a, b with KBech32, KBech32 | KHrpMismatch, KHrpMismatch | KRead, KRead => true | _, _ => false end.
+
 Definition bres := outcome bytes unit.
 Definition bres_eqb := outcome_eqb bytes_eqb unit_eqb.
 Definition sres := outcome (list N) unit.
@@ -76,7 +79,11 @@ Inductive case :=
 (** [ZcashAddress::try_from_encoded(s)]; when Ok a, [re] = [a.encode()] *)
 | CParse (s : list N) (t : list hg_entry) (o : ares) (re : option sres)
 (** [a.convert_if_network(expected)] observed through a recording [TryFromAddress] *)
-| CConv (a : addr) (expected : net) (o : outcome addr (net * net)).
+| CConv (a : addr) (expected : net) (o : outcome addr (net * net))
+(** [zcash_keys::encoding::decode_payment_address(hrp, s)]: the 43 address bytes; [valid]: whether
+    the bytes the data part regroups to are a valid Sapling payment address (external crypto);
+    when Ok addr, [re] = [encode_payment_address(hrp, addr)] *)
+| CKDec (hrp s : list N) (valid : bool) (o : outcome bytes kerr) (re : option sres).
 
 Definition opt_bres_eqb := option_eqb bres_eqb.
 
@@ -120,6 +127,9 @@ Definition run_case (c : case) : bool :=
       let r := parse_address H G s in
       ares_eqb r o && option_eqb sres_eqb (on_ok r (encode_address H G)) re
   | CConv a e o => outcome_eqb addr_eqb (pair_eqb net_eqb net_eqb) (convert_if_network a e) o
+  | CKDec hrp s valid o re =>
+      let r := keys_decode_payment_address (fun _ => valid) hrp s in
+      outcome_eqb bytes_eqb kerr_eqb r o && option_eqb sres_eqb (on_ok r (keys_encode_payment_address hrp)) re
   end.
 
 Definition not_panic {A E} (o : outcome A E) : bool := match o with Panic => false | _ => true end.
@@ -191,6 +201,13 @@ Definition prop_case (c : case) : bool :=
       | Err (x, y) => negb (spec_convertible a e) && net_eqb x e && net_eqb y (addr_net a)
       | Panic => false
       end
+  | CKDec hrp s _ o re =>
+      (* accepted => 43 bytes and the address re-encodes to the very string that was accepted *)
+      match o with
+      | Ok d => (len d =? 43) && option_eqb sres_eqb re (Some (Ok s))
+      | Err _ => true
+      | Panic => false
+      end
   end.
 
 (** known finding 1: [Encoding::encode] panics on a container accepted by [try_from_items] whose
@@ -231,5 +248,6 @@ Definition tag_case (c : case) : N :=
              | Err PInvEnc => 10 | Err PNotZcash => 11 | Err (PUnified e) => 20 + uerr_tag e
              | Panic => 99
              end
+  | CKDec _ _ v o _ => 1200 + (if v then 0 else 10) + out_tag o (fun e => match e with KBech32 => 1 | KHrpMismatch => 2 | KRead => 3 end)
   | CConv a e o => 1100 + 10 * addr_tag a + (if net_eqb (addr_net a) e then 0 else 2) + out_tag o (fun _ => 1)
   end.
